@@ -52,6 +52,9 @@ CHECKS = {
  "C13": dict(level="fault_enumeration", technique="fault injection by enumeration: fork + audit-hook/write-proxy engine for the JSON store (kill-before-call, partial write, failing call at every event), strace syscall injection for SQLite",
    text="For every generated instance of flush (at exit / background), delete, erasedups, stale-lock unlock and gc removal the audited file-system events and write() calls are counted in a dry run and then EVERY event is turned into a kill point, every write into partial writes of four prefix lengths and every call into a failing call with four errnos (exhaustive per instance); after each fault every history file must be loadable (embedded index == plain JSON) and hold its old commands as a prefix (flush) or exactly its old or new version. SQLite append/delete/erasedups/gc are SIGKILLed at enumerated write-class syscalls and judged by integrity_check and row conservation.",
    note="Crash = process kill at Python's file-API boundary / at a syscall; power loss and fsync ordering are not modelled; stray *.json.tmp files are tolerated; the expected new version comes from a fault-free forked run.", ref="§2 C13, A.6"),
+ "C19": dict(level="fault_enumeration", technique="differential monitor against a cache-free twin over edit/touch/run histories in virtual time + exhaustive corruption enumeration of cache entries",
+   text="Histories of write/edit-same-size/touch/run (script, -c single mode, stdin exec mode) under every combination of the four cache switches are executed through the real run_script_with_cache / run_code_with_cache and compared step by step (stdout, exception type, namespace) with a cache-free twin, with a counter proving the cache was actually hit; for script and code entries EVERY truncation length, zero-filled tails, foreign version headers, non-marshal payloads, a directory / unreadable file / read-only directory in place of the entry are run and must equal the uncached run; real CLI runs cover the process-level view.",
+   note="Virtual time: source and cache-entry mtimes are set explicitly; tampered entries with a well-formed non-code marshal payload are run but only counted; bit flips inside a well-formed code object are out of scope.", ref="§2 C19"),
 }
 NOT_BUILT = "check not built yet in this session (planned, see DESIGN.md §2); nothing is claimed for it"
 def main():
